@@ -133,6 +133,9 @@ def check_c18(tier):
     rep.add("negative_control", corrupted_records_rejected=2)
     rep.assumptions = ["whether two goroutines touched the same word is observed by Go's race detector, not derived by TLC", "each goroutine owns its Signer; only certificates, keys, "
                        "version constants, parsed bundles and exchanges are shared", "ECDSA signatures are made before the measured calls"]
+    # the command-line serializer of cert chains: same files, created in different orders, same bytes (Trace_Cli kind certpure)
+    from cli_checks import cert_cli
+    cert_cli(rep, "C18")
     return rep.finish()
 
 
